@@ -6,6 +6,7 @@
 From Coq Require Import List NArith Bool.
 Import ListNotations.
 From PyccoloV Require Import model.Book proofs.BookProofs.
+From PyccoloV Require Import gen.BookOrder model.BookHist proofs.BookHistProofs.
 
 (* the containing statement really contains the node: it is a statement of the tree and the node lies in its sub-tree *)
 Theorem C18_contains : forall t k s, wf t -> cs_lookup (visit None t) k None = Some s -> contains t s k.
@@ -27,6 +28,41 @@ Theorem C18_tables : forall n cur w k s, wf n -> In w (visit cur n) -> cs_write 
   (cur = Some s /\ exists K, In K (nodes n) /\ nid K = k) \/ contains n s k.
 Proof. exact cs_writes_ok. Qed.
 Print Assumptions C18_tables.
+
+(* histories of instrumentations (exec, decorator, import; the same path again; other paths): model/BookHist.v.  gen/BookOrder.v
+   is REGENERATED from AstRewriter.visit on every run and says in which order the old bookkeeper of a path is removed and the new
+   one added.  For every history whose new nodes are live objects not yet in the tables (`hist_fresh`), and for every bookkeeper
+   whose code can still run (the latest whole-module instrumentation of a path and every single-function instrumentation of it
+   since): all its node ids are in the tables and the line table of its module maps each of its lines to its own statement. *)
+Theorem C18_history : forall gc ops, hist_fresh gc ops st0 ->
+  forall q b, In b (valid (BookHist.run book_remove_first gc ops st0) q) ->
+    (forall k, In k (b_ids b) -> gn (BookHist.run book_remove_first gc ops st0) k = true) /\
+    (forall l, has_line l (b_lines b) = true -> gl (BookHist.run book_remove_first gc ops st0) (b_mid b) l = lookup l (b_lines b) None).
+Proof. intros gc ops HF q b Hb. exact (history_entries_valid gc ops st0 inv0 HF q b Hb). Qed.
+Print Assumptions C18_history.
+
+(* the other order, kept as a checked witness: a file instrumented twice loses the lines both versions share *)
+Theorem C18_remove_after_add_refuted :
+  let b1 := {| b_mid := 1; b_ids := [10; 11]; b_lines := [(1, 11)] |}%N in
+  let b2 := {| b_mid := 2; b_ids := [20; 21]; b_lines := [(1, 21)] |}%N in
+  let s := BookHist.run false true [ {| o_path := 0%N; o_kind := KModule; o_bk := b1 |}; {| o_path := 0%N; o_kind := KModule; o_bk := b2 |} ] st0 in
+  valid s 0%N = [b2] /\ gl s 2%N 1%N = None.
+Proof. exact remove_after_add_refuted. Qed.
+Print Assumptions C18_remove_after_add_refuted.
+
+Example C18_history_nonvacuous :
+  let b1 := {| b_mid := 1; b_ids := [10; 11]; b_lines := [(1, 11)] |}%N in
+  let b2 := {| b_mid := 2; b_ids := [20; 21]; b_lines := [(1, 21)] |}%N in
+  let ops := [ {| o_path := 0%N; o_kind := KModule; o_bk := b1 |}; {| o_path := 0%N; o_kind := KModule; o_bk := b2 |} ] in
+  hist_fresh true ops st0 /\ valid (BookHist.run book_remove_first true ops st0) 0%N = [b2].
+Proof.
+  cbn zeta. split; [|reflexivity].
+  cbn [hist_fresh]. split; [|split; [|exact I]].
+  - split; [intros k _; reflexivity|intros q b []].
+  - split.
+    + intros k Hk. cbn in Hk. destruct Hk as [<-|[<-|[]]]; reflexivity.
+    + intros q b Hb. cbn in Hb. destruct (N.eqb q 0) in Hb; [|destruct Hb]. destruct Hb as [<-|[]]. cbn. discriminate.
+Qed.
 
 (* non-vacuity: `@deco def g(): a = 1; return a` then `try: x = 1 except E: y = 2`
    0 Module [1 FunctionDef [2 Assign [3 Name; 4 Const]; 5 Return [6 Name]; 7 deco Name]; 8 Try [9 Assign; 10 handler [11 E; 12 Assign]]] *)
